@@ -19,7 +19,14 @@ ASSUMPTIONS = [
   "JSON values as produced by json.loads: finite floats, ints below the 4300-digit str limit of CPython, nesting depth <= 200",
   "Python's \\w is modelled on ASCII ([A-Za-z0-9_]); non-ASCII word characters in unknown keys are decided by the searcher only",
   "regular-expression matching (pattern) is an oracle supplied per case by Python's re.search",
-  "message text is compared for non-emptiness only",
+  "patternProperties: whether a key is matched is an oracle `pm` supplied per case by Python's re: re.search of the '|'-joined patterns, "
+  "as jsonschema._utils.find_additional_properties evaluates it (its quirk included: an empty joined string - no pattern, or the single "
+  "pattern '' - matches no key); the oracle is indexed by the sorted pattern list (the order of the alternatives is taken not to matter)",
+  "contract on the message of an additionalProperties:false error (wf_verr, compared with jsonschema's real records on every run): when all "
+  "unknown keys are ASCII identifier-like it is 'Additional properties are not allowed (...)' without patternProperties, and with it "
+  "\"'a', 'b' do not match any of the regexes: 'p', ...\" - exactly when all patterns are ASCII (Python's repr of a str is modelled on "
+  "ASCII: quote choice, backslash, \\t \\n \\r \\xNN), up to 'regexes: ' otherwise; jsonschema raises the error only when there is an unknown key",
+  "the message text of the library's errors is compared for non-emptiness only",
   "'an unknown key with an identifier-like name': every unknown key of the offending object matches \\w+ (weakest reading); with a "
   "non-identifier key next to it (e.g. \"a b'c'\") the regular expression can return a fragment, which is not counted as a violation",
   "jsonschema reports a `false` sub-schema with validator None and an empty path: the correspondence does not compare the path of such records",
@@ -41,6 +48,11 @@ ODD_KEYS = ["b c", "it's", "", "u'x", "☃", "a-b", 'q"r', "u'", "'", "a,b", "'a
 UNI_KEYS = ["é", "ключ", "日本", "naïve_1", "²"]
 STRS = ["", "a", "ab", "abc", "x", "hello world", "u", "aaaaaa", "日本", "é", "☃", "a'b", "0", "12", "xy", "b"]
 PATTERNS = ["^a", "b$", "^[a-z]+$", "[0-9]", "^$", "u'", "x|y", "^.{2,3}$"]
+# patternProperties patterns of the correspondence: identifier-like ones (returned by the regular expression of process_error after
+# the keys), reprs with double quotes / backslash / \t \n \r \xNN escapes, a non-ASCII one whose character is not a word character
+# (the model's \w is ASCII)
+PPATS = ["^x", "_", "^u+$", "abc", "^zz", "^q_", "\\d", "u'", "it's\"", "a\tb", "☃", "U2", "^[a-c]$", 'q"', "key", "a\nb\r", "\x1f|\x7f"]
+PKEYS = ["zz1", "q_a", "xabc", "abcd", "it's\"k", 'q"', "zz", "x_1", "a\tb"]
 TYPES = ["null", "boolean", "integer", "number", "string", "array", "object"]
 TYPE_CTOR = dict(null="TNull", boolean="TBoolean", integer="TInteger", number="TNumber", string="TString", array="TArray", object="TObject")
 KINDS = {"additionalProperties": "VAdditional", "type": "VType", "maxProperties": "VMaxProps", "minProperties": "VMinProps",
@@ -106,7 +118,7 @@ def rand_json(rng, depth, wide=False):
   return {rand_key(rng, wide): rand_json(rng, depth - 1, wide) for _ in range(rng.randint(0, 3))}
 
 
-def gen_schema(rng, depth, wide=False):
+def gen_schema(rng, depth, wide=False, pprob=0.0):
   r = rng.random()
   if r < 0.04:
     return True
@@ -128,7 +140,7 @@ def gen_schema(rng, depth, wide=False):
   p = rng.random
   if ft == "object":
     if p() < 0.8:
-      s["properties"] = {k: gen_schema(rng, depth - 1, wide) for k in rng.sample(KEYS, rng.randint(0, 3))}
+      s["properties"] = {k: gen_schema(rng, depth - 1, wide, pprob) for k in rng.sample(KEYS, rng.randint(0, 3))}
     if p() < 0.6:
       pool = list(s.get("properties", {})) + [rand_key(rng, wide)]
       s["required"] = list(dict.fromkeys(rng.choice(pool) for _ in range(rng.randint(0, 3))))
@@ -138,18 +150,21 @@ def gen_schema(rng, depth, wide=False):
     elif q < 0.5:
       s["additionalProperties"] = True
     elif q < 0.62:
-      s["additionalProperties"] = gen_schema(rng, depth - 1, wide)
+      s["additionalProperties"] = gen_schema(rng, depth - 1, wide, pprob)
     if p() < 0.15:
       s["minProperties"] = rng.randint(0, 3)
     if p() < 0.15:
       s["maxProperties"] = rng.randint(0, 3)
     if wide and p() < 0.15:
       s["patternProperties"] = {rng.choice(["^x", "_", "^u+$", "abc"]): rng.choice([{}, True, {"type": "integer"}])}
+    if not wide and pprob and p() < pprob:
+      s["patternProperties"] = {pat: rng.choice([{}, True, {"type": "integer"}, gen_schema(rng, depth - 1, wide, pprob)])
+                                for pat in rng.sample(PPATS, rng.randint(1, 3))}
     if wide and p() < 0.1 and "$schema" not in s:
       s["dependentRequired"] = {rng.choice(KEYS): [rng.choice(KEYS)]}
   elif ft == "array":
     if p() < 0.75:
-      s["items"] = gen_schema(rng, depth - 1, wide)
+      s["items"] = gen_schema(rng, depth - 1, wide, pprob)
     if p() < 0.3:
       s["minItems"] = rng.randint(0, 3)
     if p() < 0.3:
@@ -184,9 +199,9 @@ def gen_schema(rng, depth, wide=False):
   if depth > 0:
     for comb, pr in (("anyOf", 0.12), ("oneOf", 0.12), ("allOf", 0.06)):
       if p() < pr:
-        s[comb] = [gen_schema(rng, depth - 1, wide) for _ in range(rng.randint(1, 3))]
+        s[comb] = [gen_schema(rng, depth - 1, wide, pprob) for _ in range(rng.randint(1, 3))]
     if p() < 0.05:
-      s["not"] = gen_schema(rng, depth - 1, wide)
+      s["not"] = gen_schema(rng, depth - 1, wide, pprob)
   if p() < 0.12:
     k = rng.choice(ANNOT)
     s[k] = [1] if k == "examples" else ("date" if k == "format" else rng.choice(["t", "text"]))
@@ -238,6 +253,17 @@ def gen_value(rng, s, depth, wide=False):
     for k in s.get("required", []):
       if k not in d and rng.random() < 0.6:
         d[k] = gen_value(rng, props.get(k, {}), depth - 1, wide)
+    pp = s.get("patternProperties")
+    if not wide and isinstance(pp, dict) and rng.random() < 0.7:
+      for _ in range(rng.randint(1, 3)):
+        k = rng.choice(KEYS + PKEYS)
+        if k not in d:
+          subs = [sub for pat, sub in pp.items() if re.search(pat, k)]
+          d[k] = gen_value(rng, subs[0], depth - 1, wide) if subs and rng.random() < 0.8 else rand_json(rng, 0, wide)
+      if rng.random() < 0.5:
+        items = list(d.items())
+        rng.shuffle(items)
+        d = dict(items)
     if rng.random() < 0.3:
       ap = s.get("additionalProperties")
       for _ in range(rng.randint(1, 3)):
@@ -310,17 +336,18 @@ def schlit(s):
   if s is True or s is False:
     return f"(SBool {C.blit(s)})"
   kws = []
+  props_done = False
   for k, v in s.items():
     if k == "type":
       kws.append("(SType " + C.listlit([v] if isinstance(v, str) else v, lambda t: TYPE_CTOR[t]) + ")")
     elif k == "required":
       kws.append("(SRequired " + C.listlit(v, slit) + ")")
-    elif k == "properties":
-      ap = C.optlit(s["additionalProperties"], schlit) if "additionalProperties" in s else "None"
-      kws.append("(SProps " + C.listlit(v.items(), lambda kv: f"({slit(kv[0])}, {schlit(kv[1])})") + f" {ap})")
-    elif k == "additionalProperties":
-      if "properties" not in s:
-        kws.append(f"(SProps [] (Some {schlit(v)}))")
+    elif k in ("properties", "patternProperties", "additionalProperties"):
+      if not props_done:   # the three keywords are ONE constructor of the model (patterns in the schema's own order)
+        props_done = True
+        ap = C.optlit(s["additionalProperties"], schlit) if "additionalProperties" in s else "None"
+        pairs = lambda d: C.listlit(d.items(), lambda kv: f"({slit(kv[0])}, {schlit(kv[1])})")
+        kws.append(f"(SProps {pairs(s.get('properties', {}))} {pairs(s.get('patternProperties', {}))} {ap})")
     elif k == "items":
       kws.append(f"(SItems {schlit(v)})")
     elif k in NUMKW:
@@ -358,7 +385,7 @@ def all_patterns(s, acc):
     for k, v in s.items():
       if k == "pattern":
         acc.add(v)
-      elif k in ("properties",):
+      elif k in ("properties", "patternProperties"):
         for x in v.values():
           all_patterns(x, acc)
       elif k in ("oneOf", "anyOf", "allOf"):
@@ -376,6 +403,72 @@ def rx_table(value, schema):
   return "[" + "; ".join(rows) + "]"
 
 
+def all_keys(v, acc):
+  if isinstance(v, list):
+    for x in v:
+      all_keys(x, acc)
+  elif isinstance(v, dict):
+    for k, x in v.items():
+      if isinstance(k, str):
+        acc.add(k)
+      all_keys(x, acc)
+
+
+def all_patlists(s, acc):
+  """every list of patternProperties patterns of the schema, in the schema's own order (the order jsonschema joins them in)"""
+  if isinstance(s, dict):
+    for k, v in s.items():
+      if k == "patternProperties" and isinstance(v, dict):
+        acc.append(list(v))
+        for x in v.values():
+          all_patlists(x, acc)
+      elif k == "properties" and isinstance(v, dict):
+        for x in v.values():
+          all_patlists(x, acc)
+      elif k in ("oneOf", "anyOf", "allOf") and isinstance(v, list):
+        for x in v:
+          all_patlists(x, acc)
+      elif k in ("items", "not", "additionalProperties"):
+        all_patlists(v, acc)
+
+
+def verr_patlists(e, lists, keys):
+  if isinstance(e.schema, dict) and isinstance(e.schema.get("patternProperties"), dict):
+    lists.append(list(e.schema["patternProperties"]))
+  all_keys(e.instance, keys)
+  for c in e.context or []:
+    verr_patlists(c, lists, keys)
+
+
+def pm_table(lists, keys):
+  """rows (sorted patterns, key, re.search("|".join(patterns in the schema's order), key) is not None): what
+  jsonschema._utils.find_additional_properties evaluates; the single-pattern rows are what patternProperties itself evaluates"""
+  rows = {}
+  for lst in lists:
+    if not all(isinstance(x, str) for x in lst):
+      continue
+    for sub in [lst] + [[x] for x in lst]:
+      try:
+        rx = re.compile("|".join(sub))
+      except re.error:
+        continue
+      for k in keys:
+        key = (tuple(sorted(sub)), k)
+        val = rx.search(k) is not None
+        if rows.setdefault(key, val) != val:
+          raise C.TieBroken(f"the alternation of {sub!r} matches {k!r} in one order and not in another")
+  return "[" + "; ".join(f"({C.listlit(list(ps), slit)}, {slit(k)}, {C.blit(b)})" for (ps, k), b in sorted(rows.items())) + "]"
+
+
+def pm_of_case(value, schema, cause):
+  lists, keys = [], set()
+  all_patlists(schema, lists)
+  all_keys(value, keys)
+  if cause is not None:
+    verr_patlists(cause, lists, keys)
+  return pm_table(lists, keys)
+
+
 def pathlit(path):
   return C.listlit(list(path), lambda p: f"(PIdx {int(p)}%nat)" if isinstance(p, int) and not isinstance(p, bool) else f"(PKey {slit(p)})")
 
@@ -387,7 +480,10 @@ def verrlit(e):
   sprops = C.listlit(list(props) if isinstance(props, dict) else [], slit)
   kind = KINDS.get(e.validator, "VOther")
   ctx = C.listlit(list(e.context or []), verrlit)
-  return (f"(VErr {kind} {jlit(e.validator_value)} {jlit(e.instance)} {sty} {sprops} {C.blit('patternProperties' in sch)} "
+  pp = sch.get("patternProperties")
+  # the patterns in the order jsonschema prints them in its message: sorted(schema["patternProperties"])
+  spats = C.listlit(sorted(pp) if isinstance(pp, dict) and all(isinstance(x, str) for x in pp) else [], slit)
+  return (f"(VErr {kind} {jlit(e.validator_value)} {jlit(e.instance)} {sty} {sprops} {C.blit('patternProperties' in sch)} {spats} "
           f"{pathlit(e.path)} {slit(e.message)} {ctx})")
 
 
@@ -462,11 +558,17 @@ def gen_verr_obj(rng, depth):
                    {"a": 1}, {}, [None], [True], rand_json(rng, 2)])
   inst = rng.choice([rand_json(rng, 2), {"a": 1}, {"a": 1, "b": [2]}, {}, [], "s", 5])
   sch = rng.choice([{}, {"type": "integer"}, {"type": ["string", "null"]}, {"properties": {"a": {}}, "additionalProperties": False},
-                    {"type": "object", "required": ["a"]}, {"patternProperties": {"^x": {}}}])
+                    {"type": "object", "required": ["a"]}, {"patternProperties": {"^x": {}}},
+                    {"properties": {"a": {}}, "patternProperties": {p: {} for p in rng.sample(PPATS, rng.randint(0, 3))}, "additionalProperties": False}])
   r = rng.random()
-  if r < 0.35:
+  if r < 0.25:
     ks = [rand_key(rng) for _ in range(rng.randint(1, 3))]
     msg = "Additional properties are not allowed (%s %s unexpected)" % (", ".join(repr(k) for k in ks), "was" if len(ks) == 1 else "were")
+  elif r < 0.4:
+    # the patternProperties form, also with NO key in front (jsonschema never raises that one): the patterns are what is found
+    ks = sorted(rand_key(rng) for _ in range(rng.randint(0, 3)))
+    pats = sorted(sch.get("patternProperties", {})) if rng.random() < 0.6 else sorted(rng.sample(PPATS, rng.randint(0, 3)))
+    msg = "%s %s not match any of the regexes: %s" % (", ".join(repr(k) for k in ks), "does" if len(ks) == 1 else "do", ", ".join(repr(x) for x in pats))
   elif r < 0.5:
     msg = rng.choice(["u'x', 'y'", "''", "'a''b'", "u'u'u'", "'a b', 'c'", "uu'k',", "'k", "k'", "u", "'u'", "u'u',u'v'", "'a','b'", "',',"])
   else:
@@ -503,6 +605,65 @@ def depth_of(v):
   return 0
 
 
+PLEAVES = [({}, None), (True, 1), ({"type": "integer"}, 3), ({"type": "string"}, "s"), ({"type": ["integer", "null"]}, None)]
+
+
+def gen_patprops(rng):
+  """additionalProperties next to patternProperties: declared keys, keys a pattern allows (often BEFORE the unknown ones), unknown keys"""
+  r = rng.random()
+  if r < 0.05:
+    pats = []
+  elif r < 0.1:
+    pats = [""]          # the joined pattern is the empty string: jsonschema then counts NO key as matched
+  elif r < 0.14:
+    pats = ["", rng.choice(PPATS)]
+  else:
+    pats = rng.sample(PPATS, rng.randint(1, 3))
+  leaves = {p: rng.choice(PLEAVES) for p in pats}
+  s = {"type": "object"}
+  props = {}
+  if rng.random() < 0.8:
+    props = {k: rng.choice(PLEAVES) for k in rng.sample(KEYS, rng.randint(0, 2))}
+    s["properties"] = {k: copy.deepcopy(v[0]) for k, v in props.items()}
+  s["patternProperties"] = {p: copy.deepcopy(v[0]) for p, v in leaves.items()}
+  q = rng.random()
+  if q < 0.8:
+    s["additionalProperties"] = False
+  elif q < 0.9:
+    s["additionalProperties"] = {"type": "integer"}
+  items = [(k, copy.deepcopy(v[1])) for k, v in props.items() if rng.random() < 0.7]
+  pool = rng.sample(KEYS + PKEYS, rng.randint(0, 4))
+  allowed = [k for k in KEYS + PKEYS if any(re.search(p, k) for p in pats)]
+  if allowed and rng.random() < 0.7:
+    pool += rng.sample(allowed, min(len(allowed), rng.randint(1, 2)))   # keys a pattern allows
+  for k in dict.fromkeys(pool):
+    hit = [leaves[p][1] for p in pats if re.search(p, k)]
+    if not hit and not re.fullmatch(r"[A-Za-z0-9_]+", k) and rng.random() < 0.8:
+      continue   # an unknown key that is not identifier-like leaves the message unconstrained: keep those rare
+    if k not in dict(items):
+      items.append((k, copy.deepcopy(hit[0]) if hit and rng.random() < 0.9 else rng.choice([1, None, "s"])))
+  if rng.random() < 0.08:
+    items.append((rng.choice(ODD_KEYS), 1))
+  rng.shuffle(items)
+  val = dict(items)
+  w = rng.random()
+  if w < 0.12:
+    k = rng.choice(KEYS)
+    s, val = {"type": "object", "properties": {k: s}, "required": [k]}, {k: val}
+  elif w < 0.24:
+    s, val = {"type": "array", "items": s}, [copy.deepcopy(val), val]
+  elif w < 0.34:
+    s = {rng.choice(["anyOf", "oneOf"]): [s, {"type": "integer"}][:: rng.choice([1, -1])]}
+  return s, val
+
+
+def pat_addl_records(e, out):
+  if e.validator == "additionalProperties" and e.validator_value is False and isinstance(e.schema, dict) and "patternProperties" in e.schema:
+    out.append(e)
+  for c in e.context or []:
+    pat_addl_records(c, out)
+
+
 def correspondence(ctx):
   n = ctx.n(700, 12000)
   rng = ctx.rng
@@ -515,18 +676,25 @@ def correspondence(ctx):
     if i % 5 == 4:
       e = gen_verr_obj(rng, 2)
       out = run_process(e)
-      cases.append(f"CProc {verrlit(e)} {obslit(out)}")
+      lists, keys = [], set()
+      verr_patlists(e, lists, keys)
+      cases.append(f"CProc {verrlit(e)} {pm_table(lists, keys)} {obslit(out)}")
       inp = dict(family="process_error", verr=verr_json(e))
       meta.append(("process", inp, describe_exc(out)))
       bump("process_error:" + str(e.validator))
       bump("process_error->" + type(out).__name__)
       nt = True
     else:
-      schema = gen_schema(rng, rng.randint(0, 3))
-      value = gen_value(rng, schema, 3)
+      if i % 5 == 3:
+        schema, value = gen_patprops(rng)
+      else:
+        schema = gen_schema(rng, rng.randint(0, 3), pprob=0.25)
+        value = gen_value(rng, schema, 3)
       v0, s0 = copy.deepcopy(value), copy.deepcopy(schema)
       exc, cause = run_validate(value, schema)
       inp = dict(family="random", value=v0, schema=s0)
+      if "patternProperties" in repr(schema):
+        bump("schema-with-patternProperties")
       if repr(v0) != repr(value) or repr(s0) != repr(schema):
         dis.append(dict(what="validate modified its arguments", kind="validate", input=inp, observed=describe_exc(exc)))
       if exc is not None and cause is None:
@@ -544,7 +712,24 @@ def correspondence(ctx):
         bump("raised:" + type(exc).__name__)
         if cause.context:
           bump("rejected-with-context")
-      cases.append(f"CVal {jlit(value)} {schlit(schema)} {rx_table(value, schema)} {res}")
+        recs = []
+        pat_addl_records(cause, recs)
+        for rec in recs:
+          # how much of the patternProperties message contract the record pins: everything (identifier-like unknown keys and
+          # ASCII patterns), the head only (a non-ASCII pattern), or nothing (an unknown key that is not identifier-like)
+          pats = list(rec.schema["patternProperties"])
+          unknown = [k for k in rec.instance if k not in rec.schema.get("properties", {}) and not ("|".join(pats) and re.search("|".join(pats), k))]
+          if not all(re.fullmatch(r"[A-Za-z0-9_]+", k) for k in unknown):
+            bump("patternProperties-unknown-key-error:message-unconstrained")
+          elif all(x.isascii() for x in pats):
+            bump("patternProperties-unknown-key-error:message-compared-exactly")
+          else:
+            bump("patternProperties-unknown-key-error:message-head-compared")
+          if any(re.fullmatch(r"[A-Za-z0-9_]+", x) for x in pats):
+            bump("patternProperties-unknown-key-error:with-identifier-like-pattern")
+          if unknown and any(k not in rec.schema.get("properties", {}) for k in list(rec.instance)[: list(rec.instance).index(unknown[0])]):
+            bump("patternProperties-unknown-key-error:pattern-allowed-key-before-the-unknown-ones")
+      cases.append(f"CVal {jlit(value)} {schlit(schema)} {rx_table(value, schema)} {pm_of_case(value, schema, cause)} {res}")
       meta.append(("validate", inp, describe_exc(exc)))
       nt = isinstance(schema, dict) and len(schema) >= 2 and depth_of(value) >= 1
     h = C.canon_hash(meta[-1][1])
@@ -557,12 +742,15 @@ def correspondence(ctx):
     dis.append(dict(what=f"C20 correspondence case {i} ({meta[i][0]}): implementation differs from Model.Schema (conforms / wf_verr / process_error)",
                     kind=meta[i][0], input=meta[i][1], observed=meta[i][2]))
   return dict(evaluations=n, distinct_nontrivial=nontriv,
-              rule="4/5 validate(value, schema) calls: schemas of depth <= 3 over type (single / list), required, properties, additionalProperties "
-                   "(false / true / schema), items, minimum / maximum / exclusive bounds (ints, dyadic floats, 2**70), lengths, item and "
+              rule="4/5 validate(value, schema) calls (1/5 of all cases aimed at additionalProperties next to patternProperties: 0-3 patterns "
+                   "incl. identifier-like ones, quotes / escapes in their reprs, the empty pattern; declared, pattern-allowed - often first - "
+                   "and unknown keys; nested under properties / items / anyOf / oneOf): schemas of depth <= 3 over type (single / list), "
+                   "required, properties, patternProperties, additionalProperties (false / true / schema), items, minimum / maximum / exclusive bounds (ints, dyadic floats, 2**70), lengths, item and "
                    "property counts, enum, const, pattern, oneOf / anyOf / allOf / not, boolean schemas and annotation keywords; values "
                    "generated from the schema with boundary numbers, integral floats, huge ints, odd keys (quotes, spaces, 'u', empty) and "
                    "10% wrong types; 1/5 process_error calls on hand-built, possibly malformed ValidationError records (every validator "
-                   "name, non-list validator values, random messages for the regular expression, contexts two levels deep). "
+                   "name, non-list validator values, random messages for the regular expression incl. the patternProperties form with and without "
+                   "keys in front, contexts two levels deep). "
                    "non-trivial = schema with >= 2 keywords and a container value, or any process_error case; distinct by hash of the input",
               samples=[dict(kind=k, input=i, impl_output=o) for k, i, o in meta[:3]], distribution=dist, disagreements=dis)
 
@@ -979,12 +1167,15 @@ def replay(ctx, payload):
 
 LEVEL_TEXT = ("Coq theorems on an executable model of validate / process_error and of the error classes: for every ValidationError record "
               "satisfying the stated jsonschema contract (wf_verr), of any context depth, the translation terminates in one of the library's "
-              "error classes with a non-empty message; required / type errors expose the offending key / value and type; the regular "
-              "expression of the unknown-key branch returns exactly the keys on every message jsonschema builds from identifier-like keys; "
-              "validate is silent iff the value conforms, relative to the contract. The contract (conforms vs jsonschema accept / reject, "
-              "wf_verr of every raised record) and the model are tied to the code by differential runs evaluated inside Coq")
+              "error classes with a non-empty message; required / type errors expose the offending key / value and type; for every "
+              "additionalProperties:false error whose unknown keys are ASCII identifier-like - with or without patternProperties, whatever "
+              "the patterns - invalid_key is the smallest unknown key (the regular expression returns the sorted unknown keys first, then, "
+              "for patterns with plain reprs, exactly the identifier-like patterns); validate is silent iff the value conforms, relative to "
+              "the contract. The contract (conforms vs jsonschema accept / reject incl. patternProperties, wf_verr of every raised record "
+              "incl. both message formats) and the model are tied to the code by differential runs evaluated inside Coq")
 LEVEL_NOTE = ("jsonschema itself is trusted through a contract that is tested, not proved; draft 2020-12 semantics in the model; unknown-key "
-              "exposure is proved without patternProperties and for ASCII identifiers only (_partial); two inputs on the unchanged tree leak "
-              "raw exceptions (known findings); harness and printers trusted; no axioms")
+              "exposure is proved for ASCII identifiers only (_partial: Python's \\w is Unicode; non-ASCII word characters are decided by the "
+              "searcher); a record without unknown key (never raised by jsonschema) would expose a pattern (proved, with witness); two inputs "
+              "on the unchanged tree leak raw exceptions (known findings); harness and printers trusted; no axioms")
 TECHNIQUE = "Coq proof (structural induction on the error-context tree, scanner invariant) on executable model + in-Coq differential correspondence"
 DESIGN_REF = "DESIGN.md section 7, C20"
